@@ -4,6 +4,7 @@ import (
 	"fmt"
 	"go/token"
 	"go/types"
+	"sort"
 	"strings"
 
 	"golang.org/x/tools/go/ssa"
@@ -853,6 +854,42 @@ func c07Sort(c *Ctx, p *Prog, m *Model) {
 		}
 		r.Check(asc, "R07.3", "comparator:ascending", p.FuncPos(cmpFn), "negative result exactly when a.Key() < b.Key()", "the comparator does not order by ascending key (a.Key() < b.Key() must give a negative result)")
 		comparatorTable(c, p, cmpFn)
+	}
+	// the members are only reordered and dropped, never rewritten: no function of the emitter region (serializeAttrs and
+	// the private helpers it is cut into, dedupeSlice excluded - it compacts) stores into an element of an Attrs list
+	{
+		var rewrites []string
+		var fns []*ssa.Function
+		for f := range region {
+			fns = append(fns, f)
+			for _, an := range f.AnonFuncs {
+				fns = append(fns, an)
+			}
+		}
+		sort.Slice(fns, func(i, j int) bool { return fns[i].Pos() < fns[j].Pos() })
+		for _, f := range fns {
+			if strings.HasPrefix(nm(f), "dedupeSlice") {
+				continue
+			}
+			for _, b := range f.Blocks {
+				for _, in := range b.Instrs {
+					st, isS := in.(*ssa.Store)
+					if !isS {
+						continue
+					}
+					ia, isI := st.Addr.(*ssa.IndexAddr)
+					if !isI {
+						continue
+					}
+					if typeName(ia.X.Type()) == "Attrs" {
+						rewrites = append(rewrites, shortName(f)+" at "+p.Pos(instrPos(st)))
+					} else if sl, isSl := ia.X.Type().Underlying().(*types.Slice); isSl && typeName(sl.Elem()) == "Attr" {
+						rewrites = append(rewrites, shortName(f)+" at "+p.Pos(instrPos(st)))
+					}
+				}
+			}
+		}
+		r.Check(len(rewrites) == 0, "R07.4", "members:not-rewritten", p.FuncPos(sa), "no member of the list is replaced on the way from the sort to the emission", "a member of the attribute list is overwritten in place ("+strings.Join(rewrites, "; ")+"): the attribute printed for a key is no longer the last occurrence given but a value built by the emitter (members of a shadowed occurrence can come back)")
 	}
 	// order and data flow: sort precedes dedupe; dedupe gets the sorted slice; the loop ranges over the result
 	if sortCall != nil && dedupeCall != nil {
